@@ -13,7 +13,7 @@ func init() {
 	register(&Prop{
 		ID:    "C12",
 		Level: "exploration",
-		Rule: "case = a history of 1..12 put/remove/probe statements (expressions built from their intended values; duplicate keys, `key` in value expressions, some expressions failing at evaluation time) with a poll pattern of 0..6 extra Next/Batch polls after each statement, executed against a simulated store and a model map; then, separately, the same history re-executed once per (write call, fault kind) with that call faulted. distinct_nontrivial counts distinct (statement kind, pair count, has-duplicate, uses-key, failing-position, poll pattern, drain mode) tuples among statements that reached storage or failed at evaluation.",
+		Rule:  "case = a history of 1..12 put/remove/probe statements (expressions built from their intended values; duplicate keys, `key` in value expressions, some expressions failing at evaluation time) with a poll pattern of 0..6 extra Next/Batch polls after each statement, executed against a simulated store and a model map; then, separately, the same history re-executed once per (write call, fault kind) with that call faulted. distinct_nontrivial counts distinct (statement kind, pair count, has-duplicate, uses-key, failing-position, poll pattern, drain mode) tuples among statements that reached storage or failed at evaluation.",
 		Assumptions: []string{
 			"storage contract of DESIGN.md §3.3; writes apply atomically in argument order",
 			"the harness's intended values are correct by construction for the restricted expression forms used (literal, integer arithmetic, concatenation, upper/lower ASCII, str, key)",
